@@ -15,6 +15,9 @@ from .core import *      # noqa
 from .core import PathEnd, Conflict, St, Frame, join, join_heap, join_st, BUILTINS
 
 
+ALL_INTERPS = []     # every interpreter created in this process (D8 reads their events after the property's rules ran)
+
+
 class Interp:
     def __init__(self, prog, loop_taint=True, summaries=None, d4=False):
         from .prims import PRIMS
@@ -40,6 +43,8 @@ class Interp:
         self._capture = None
         self.capture_locals = {}     # qname -> [local names] recorded at each return of that function
         self.captured = {}
+        self.own_params = True   # D8: array arguments of the entry call are caller-owned storage
+        ALL_INTERPS.append(self)
 
     # ------------------------------------------------------------------ helpers
     @property
@@ -58,6 +63,51 @@ class Interp:
         lab = 'V:%d' % (len(self.variants) + 1)
         self.variants[lab] = c
         return lab
+
+    # ---- D8: memory identity of arrays
+    _mid = 0
+
+    def fresh_mid(self):
+        Interp._mid += 1
+        return Interp._mid
+
+    def share(self, dst, src, whole=True):
+        """dst shares storage with src (a view, or the same object when `whole`)"""
+        if not isinstance(dst, Num) or not isinstance(src, Num) or not dst.is_array:
+            return dst
+        if src.mid is None:
+            src.mid = self.fresh_mid()
+        dst.mid = src.mid
+        dst.whole = bool(whole and src.whole)
+        dst.view_of = dst.view_of | src.view_of
+        dst.clob = src.clob
+        return dst
+
+    def written(self, name, base, new, st, node):
+        """an in-place write through `name` (old value base, new value new): every other local name that shares the
+        storage sees it -- the same object gets the new value, a partial view / viewed base loses what was known"""
+        if not isinstance(base, Num) or not isinstance(new, Num):
+            return
+        new.mid, new.whole, new.view_of = base.mid, base.whole, base.view_of | new.view_of
+        if base.view_of:
+            pass
+        if base.mid is None:
+            return
+        fn = self.cur.qname if self.cur else ''
+        for k, v in list(st.env.items()):
+            if k == name or not isinstance(v, Num) or v.mid != base.mid or v is new:
+                continue
+            if v.whole and base.whole:
+                st.env[k] = new
+                self.events.append(('alias-write', node, name, k, True, fn))
+            else:
+                p = v.copy(deg=top_deg())
+                p.q = None
+                p.amap = None
+                p.mid, p.whole, p.view_of = v.mid, v.whole, v.view_of
+                p.clob = '%s overwritten through %s' % (k, name)
+                st.env[k] = p
+                self.events.append(('alias-write', node, name, k, False, fn))
 
     def conflict(self, kind, comp, msg, node):
         if self.in_assert:
@@ -128,6 +178,10 @@ class Interp:
             env[a.kwarg.arg] = Const(dict(kwargs))
         elif kwargs:
             self.unsupported('unexpected keyword(s) %s for %s' % (sorted(kwargs), fsym.qname), node)
+        if self.depth == 0 and self.own_params:
+            for k_, v_ in env.items():
+                if isinstance(v_, Num) and v_.is_array and not v_.view_of:
+                    v_.view_of = frozenset([k_])
         rec = None
         if fsym.qname in self.watch:
             rec = {'params': dict(env), 'ret': None, 'caller': self.cur.qname if self.cur else ''}
